@@ -11,6 +11,7 @@
      DFUNC <id> <vararg> <nres> <type>* <nargs> (<name> <type> <size>)*   MIR_new_func_arr
      GDECL <id> <use> <n> (<name> <type> <hard reg | ->)*      MIR_new_func_reg / MIR_new_global_func_reg steps;
                                                                output STEP per step and LOOK <id> <k> <reg> <MIR_reg result>
+     GFN <id> <use> <exec> <ndecl> (<name> <type> <hard reg | ->)* NI <n> (INS ...)*   see do_gfn
      PATH <id> <nsteps> (<act> <name>)*                        protocol path, one API call per step
      TEXT <id> <use> <hex of MIR text>                             the same row through MIR_scan_string
      OPCODES <id>                                              list the implementation's opcode names
@@ -406,6 +407,148 @@ static void do_gdecl (const char *id) {
   say (id, "link", 0);
 }
 
+/* GFN <id> <use> <exec> <ndecl> (<name> <type> <hard reg | ->)* NI <n> (INS <op> <nops> <operand>*)*
+   a function f (a1:i64) with exactly these declarations (no other registers) and insns.
+   operand: rn:<name> | r:next | r:far | int | float | double | ldouble | memn:<type>:<base>:<index>:<disp>
+   (base/index: a variable name, none, next = highest declared register number + 1, far) */
+typedef struct {
+  const char *name;
+  MIR_reg_t reg;
+} gvar_t;
+static gvar_t gvars[32];
+static int ngvars;
+static MIR_reg_t gmaxreg;
+
+static MIR_reg_t greg_of (const char *s) {
+  if (strcmp (s, "none") == 0) return 0;
+  if (strcmp (s, "next") == 0) return gmaxreg + 1;
+  if (strcmp (s, "far") == 0) return UNDECL_REG;
+  for (int i = 0; i < ngvars; i++)
+    if (strcmp (gvars[i].name, s) == 0) return gvars[i].reg;
+  printf ("MACHINERY gfn: unknown variable %s\n", s);
+  fflush (stdout);
+  _exit (3);
+}
+
+static MIR_op_t gfn_op (MIR_context_t ctx, char *s) {
+  if (strncmp (s, "rn:", 3) == 0) return MIR_new_reg_op (ctx, greg_of (s + 3));
+  if (strncmp (s, "r:", 2) == 0) return MIR_new_reg_op (ctx, greg_of (s + 2));
+  if (strcmp (s, "int") == 0) return MIR_new_int_op (ctx, 5);
+  if (strcmp (s, "float") == 0) return MIR_new_float_op (ctx, 1.25f);
+  if (strcmp (s, "double") == 0) return MIR_new_double_op (ctx, 2.25);
+  if (strcmp (s, "ldouble") == 0) return MIR_new_ldouble_op (ctx, 3.25L);
+  if (strncmp (s, "memn:", 5) == 0) {
+    char *t = strtok (s + 5, ":"), *b = strtok (NULL, ":"), *x = strtok (NULL, ":"), *d = strtok (NULL, ":");
+    return MIR_new_mem_op (ctx, str2type (t), strtol (d, NULL, 10), greg_of (b), greg_of (x), 1);
+  }
+  printf ("MACHINERY gfn: unknown operand %s\n", s);
+  fflush (stdout);
+  _exit (3);
+}
+
+/* returns 0 if a declaration step was rejected (reported as STEP ... ERROR) */
+static int gfn_build (const char *id, MIR_context_t ctx, MIR_module_t *m, MIR_item_t *fp, int report) {
+  MIR_var_t farg = {MIR_T_I64, "a1", 0};
+  MIR_item_t f;
+  MIR_op_t ops[8];
+  int n = (int) tokl (), ni;
+  volatile int k;
+
+  *m = MIR_new_module (ctx, "m");
+  *fp = f = MIR_new_func_arr (ctx, "f", 0, NULL, 1, &farg);
+  ngvars = 0;
+  gvars[ngvars].name = "a1";
+  gvars[ngvars++].reg = gmaxreg = MIR_reg (ctx, "a1", f->u.func);
+  for (k = 1; k <= n; k++) {
+    const char *name = tok ();
+    MIR_type_t t = str2type (tok ());
+    const char *hr = tok ();
+    MIR_reg_t reg;
+    if (setjmp (jb)) {
+      if (report) printf ("STEP %s %d ERROR %d %s %s\n", id, k, ecode, ename (ecode), emsg);
+      fflush (stdout);
+      return 0;
+    }
+    reg = strcmp (hr, "-") == 0 ? MIR_new_func_reg (ctx, f->u.func, t, name) : MIR_new_global_func_reg (ctx, f->u.func, t, name, hr);
+    if (report) printf ("STEP %s %d ACCEPT\n", id, k);
+    fflush (stdout);
+    gvars[ngvars].name = name;
+    gvars[ngvars++].reg = reg;
+    if (reg > gmaxreg) gmaxreg = reg;
+  }
+  if (setjmp (jb)) {
+    if (report) say (id, "build", 1);
+    return 0;
+  }
+  if (strcmp (tok (), "NI") != 0) _exit (3);
+  ni = (int) tokl ();
+  for (int i = 0; i < ni; i++) {
+    const char *name;
+    int nops;
+    if (strcmp (tok (), "INS") != 0) _exit (3);
+    name = tok ();
+    nops = (int) tokl ();
+    for (int j = 0; j < nops; j++) ops[j] = gfn_op (ctx, (char *) tok ());
+    MIR_append_insn (ctx, f, MIR_new_insn_arr (ctx, str2code (ctx, name), nops, ops));
+  }
+  MIR_finish_func (ctx);
+  if (report) say (id, "build", 0);
+  return 1;
+}
+
+static void do_gfn (const char *id) {
+  MIR_context_t ctx = MIR_init ();
+  MIR_module_t m;
+  MIR_item_t f;
+  int use_p = (int) tokl (), exec_p = (int) tokl (), start = tp, i;
+  char *line_copy[4096];
+
+  for (i = 0; i < ntok; i++) line_copy[i] = strdup (toks[i]);
+  MIR_set_error_func (ctx, errf);
+  if (setjmp (jb)) {
+    printf ("MACHINERY gfn scaffold failed: %s\n", emsg);
+    fflush (stdout);
+    _exit (3);
+  }
+  if (!gfn_build (id, ctx, &m, &f, 1) || !use_p) return;
+  if (setjmp (jb)) {
+    say (id, "load", 1);
+    return;
+  }
+  MIR_finish_module (ctx);
+  MIR_load_module (ctx, m);
+  say (id, "load", 0);
+  if (setjmp (jb)) {
+    say (id, "link", 1);
+    return;
+  }
+  MIR_link (ctx, MIR_set_interp_interface, NULL);
+  say (id, "link", 0);
+  if (!exec_p) return;
+  /* run it once (fresh context: operands were consumed by the first construction) */
+  for (i = 0; i < ntok; i++) toks[i] = line_copy[i];
+  tp = start;
+  ctx = MIR_init ();
+  MIR_set_error_func (ctx, errf);
+  if (setjmp (jb)) {
+    say (id, "exec", 1);
+    return;
+  }
+  if (!gfn_build (id, ctx, &m, &f, 0)) {
+    say (id, "exec", 1);
+    return;
+  }
+  MIR_finish_module (ctx);
+  MIR_load_module (ctx, m);
+  MIR_link (ctx, MIR_set_interp_interface, NULL);
+  {
+    MIR_val_t res[4], arg;
+    arg.i = 11;
+    MIR_interp_arr (ctx, f, res, 1, &arg);
+  }
+  say (id, "exec", 0);
+}
+
 static void do_dfunc (const char *id) {
   MIR_context_t ctx = MIR_init ();
   MIR_module_t m;
@@ -569,6 +712,8 @@ int main (int argc, char **argv) {
         do_dfunc (id);
       else if (strcmp (kind, "GDECL") == 0)
         do_gdecl (id);
+      else if (strcmp (kind, "GFN") == 0)
+        do_gfn (id);
       else if (strcmp (kind, "PATH") == 0)
         do_path (id);
       else if (strcmp (kind, "TEXT") == 0)
